@@ -1,6 +1,8 @@
 #[macro_use]
 mod types;
 mod block;
+#[cfg(jubako_verif_loom)]
+pub(crate) mod verif_sync;
 mod cache;
 mod io;
 mod parsing;
